@@ -576,8 +576,11 @@ func genC12(c *Ctx) {
 		case 0:
 			s = c.bytesFrom([]byte("ACGTNacgtn\xc5\x81\xc3\x87\xe2\x84\xaa\x41"), 1+c.rng.Intn(8))
 		case 1:
-			s = []byte(string([]rune{rune(0x100 + c.rng.Intn(0x300)), 'A', rune(0x2100 + c.rng.Intn(0x100))}))
-			s = append(c.bytesFrom([]byte("ACGT"), c.rng.Intn(3)), s...)
+			// exactly one well-formed multi-byte rune whose code point's low byte is a base letter
+			letter := "ACGTNacgtn"[c.rng.Intn(10)]
+			r := rune(0x100*(1+c.rng.Intn(30))) + rune(letter)
+			s = append(c.bytesFrom([]byte("ACGTn"), c.rng.Intn(4)), []byte(string(r))...)
+			s = append(s, c.bytesFrom([]byte("ACGTn"), c.rng.Intn(4))...)
 		default:
 			s = c.bytesFrom([]byte("ACGTN\x00\xff\x80 U"), 1+c.rng.Intn(6))
 		}
